@@ -55,12 +55,16 @@ class PackageLoader(BaseLoader):
 
         # Don't build a path that escapes package/package_path.
         # Does ".." appear in template_name?
-        if os.path.pardir in template_path.parts:
+        if template_path.is_absolute() or os.path.pardir in template_path.parts:
             raise TemplateNotFoundError(template_name)
 
         # Add suffix self.ext if template name does not have a suffix.
         if not template_path.suffix:
-            template_path = template_path.with_suffix(self.ext)
+            try:
+                template_path = template_path.with_suffix(self.ext)
+            except ValueError as err:
+                # An empty name, for example.
+                raise TemplateNotFoundError(template_name) from err
 
         for path in self.paths:
             source_path = path.joinpath(str(template_path))
